@@ -786,6 +786,74 @@ func (t *tester) ephemeralFabrications(cs consensus.State, orig types.Block, bs 
 	}
 }
 
+// v1Fabrications: the same for v1 transactions, whose in-block parents are looked up by ID alone. A siacoin / siafund
+// input is appended whose ParentID no transaction created as an element of that kind: a random ID, and the ID of an
+// element of another kind sitting at the same position of the block's (v1) diff lists. The unlock conditions are
+// those of the siacoin / siafund element at that position, so only membership decides.
+func (t *tester) v1Fabrications(cs consensus.State, orig types.Block) {
+	h := cs.Index.Height + 1
+	if h >= t.c.Net.N.HardforkV2.RequireHeight || len(orig.Transactions) == 0 {
+		return
+	}
+	scs, sfs, fcs := t.c.V1MidDiffs(orig)
+	type alias struct {
+		name string
+		id   [32]byte
+	}
+	done := 0
+	for j, d := range scs {
+		e := d.SiacoinElement
+		l := t.c.W.Locks[e.SiacoinOutput.Address]
+		if l == nil || l.UC == nil || !l.SpendableV1(h) || e.MaturityHeight > h || e.SiacoinOutput.Value.IsZero() || done >= 2 {
+			continue
+		}
+		al := []alias{{"never-created-id", [32]byte{0xEE, byte(j), byte(h)}}}
+		if j < len(sfs) {
+			al = append(al, alias{"id-of-siafund-element-at-same-diff-index", sfs[j].SiafundElement.ID})
+		}
+		if j < len(fcs) {
+			al = append(al, alias{"id-of-v1-contract-at-same-diff-index", fcs[j].FileContractElement.ID})
+		}
+		for _, a := range al {
+			blk := chaingen.CloneBlock(orig)
+			blk.Transactions = append(blk.Transactions, t.c.NewV1Spend(cs, types.SiacoinOutputID(a.id), e.SiacoinOutput.Value, l, types.VoidAddress))
+			err, _ := t.c.TryVariant(&blk)
+			if chaingen.IsSealFailure(err) {
+				continue
+			}
+			t.expect("v1-in-block-siacoin-parent", "fabricated/"+a.name, false, "ValidateBlock", err == nil)
+			t.b.Count("v1_fabrications_tried", 1)
+		}
+		done++
+	}
+	done = 0
+	for j, d := range sfs {
+		e := d.SiafundElement
+		l := t.c.W.Locks[e.SiafundOutput.Address]
+		if l == nil || l.UC == nil || !l.SpendableV1(h) || e.SiafundOutput.Value == 0 || done >= 2 {
+			continue
+		}
+		al := []alias{{"never-created-id", [32]byte{0xEF, byte(j), byte(h)}}}
+		if j < len(scs) {
+			al = append(al, alias{"id-of-siacoin-element-at-same-diff-index", scs[j].SiacoinElement.ID})
+		}
+		if j < len(fcs) {
+			al = append(al, alias{"id-of-v1-contract-at-same-diff-index", fcs[j].FileContractElement.ID})
+		}
+		for _, a := range al {
+			blk := chaingen.CloneBlock(orig)
+			blk.Transactions = append(blk.Transactions, t.c.NewV1SFSpend(cs, types.SiafundOutputID(a.id), e.SiafundOutput.Value, *l.UC, types.VoidAddress))
+			err, _ := t.c.TryVariant(&blk)
+			if chaingen.IsSealFailure(err) {
+				continue
+			}
+			t.expect("v1-in-block-siafund-parent", "fabricated/"+a.name, false, "ValidateBlock", err == nil)
+			t.b.Count("v1_fabrications_tried", 1)
+		}
+		done++
+	}
+}
+
 func (t *tester) onApply(ev chaingen.ApplyEvent) {
 	h := ev.Next.Index.Height
 	// remember freshly spent elements (post-block proof is in the diff)
@@ -891,6 +959,7 @@ func run(b *harness.B) {
 		}
 		c.OnAccepted = func(cs consensus.State, orig types.Block, bs consensus.V1BlockSupplement, kinds []string) {
 			t.ephemeralFabrications(cs, orig, bs)
+			t.v1Fabrications(cs, orig)
 		}
 		c.OnRevert = func(ev chaingen.RevertEvent) {
 			// before the store processes the revert: elements created by the block being reverted, with their proofs valid on that branch
